@@ -2,8 +2,8 @@
 From Coq Require Import List Bool NArith ZArith.
 From Coq Require Import Init.Byte.
 Import ListNotations.
-From FR Require Import Bytes Msgpack Msgpack_proofs Packer Stream Gen_packer
-                       Packer_proofs Values_proofs Stream_proofs Roundtrip_proofs Cut_proofs.
+From FR Require Import Bytes Msgpack Msgpack_proofs Packer Stream Observe Gen_packer
+                       Packer_proofs Values_proofs Stream_proofs Roundtrip_proofs Cut_proofs Lost_proofs Lost_witness.
 Open Scope Z_scope.
 
 (* msgpack is a prefix code: a proper prefix of an encoding is never accepted by unpackb *)
@@ -57,3 +57,52 @@ Proof. intros. apply stream_roundtrip; [reflexivity|assumption]. Qed.
 Theorem C04_failed_write_leaves_prefix : forall (chunks : list bytes) i j,
   exists k, concat (firstn i chunks) ++ firstn j (nth i chunks []) = firstn k (concat chunks).
 Proof. exact failed_write_prefix. Qed.
+
+(* ---- a frame LOST as a whole: its write failed completely and the application carried on ---- *)
+
+(* The lost frame held a record (IRec / IGroup), a foreign object or a repeated header: the reader yields exactly what it
+   yields on the complete stream without that one object - every other object unaltered and in order, the same end. *)
+Theorem C04_lost_record_frame : forall HASH depth pre b post reg k out r,
+  run_pre the_cfg HASH depth reg pre = (out, Some r) ->
+  let '(o, oc) := run_bodies the_cfg HASH depth r post k in
+  match decode_body the_cfg depth r b with
+  | OItem it =>
+      run_bodies the_cfg HASH depth reg (pre ++ b :: post) k = (out ++ RItem it :: o, oc) /\
+      run_bodies the_cfg HASH depth reg (pre ++ post) k = (out ++ o, oc)
+  | OForeign =>
+      run_bodies the_cfg HASH depth reg (pre ++ b :: post) k = (out ++ RForeign :: o, oc) /\
+      run_bodies the_cfg HASH depth reg (pre ++ post) k = (out ++ o, oc)
+  | OHeader => run_bodies the_cfg HASH depth reg (pre ++ b :: post) k = run_bodies the_cfg HASH depth reg (pre ++ post) k
+  | _ => True
+  end.
+Proof.
+  intros HASH depth pre b post reg k out r Hpre.
+  pose proof (dropped_item_frame the_cfg HASH depth pre b post reg k) as H. rewrite Hpre in H. exact H.
+Qed.
+
+(* The lost frame held a DESCRIPTOR d that shadows nothing the reader already resolves ([fresh]: no earlier definition has
+   d's (name, hash) identifier, and none has its bare name): decoding is monotone in the registry, so the reader yields a
+   PREFIX of the objects of the complete stream - nothing altered, nothing invented - and stops at the first record that
+   needs d.  PARTIAL: an earlier definition with the same NAME but another hash (an older version of the type) is not
+   covered by [fresh]; records with (name, hash) identifiers are unaffected by it in the implementation, which the
+   exhaustive dropped-frame enumeration of the check exercises (two versions of one type, both orders). *)
+Theorem C04_lost_descriptor_frame_partial : forall HASH depth pre b post reg d r out oc1 oc2,
+  run_pre the_cfg HASH depth reg pre = (out, Some r) ->
+  decode_body the_cfg depth r b = ODesc d -> fresh HASH r d ->
+  exists rest,
+    fst (run_bodies the_cfg HASH depth reg (pre ++ b :: post) (fun _ => ([], oc2))) =
+    fst (run_bodies the_cfg HASH depth reg (pre ++ post) (fun _ => ([], oc1))) ++ rest.
+Proof. intros HASH depth. exact (lost_descriptor_frame the_cfg HASH depth). Qed.
+
+(* ... and without [fresh] the statement is FALSE (known finding C04-lost-descriptor-frame-coincident-identifier): two
+   different definitions with one identifier, the frame of the second lost - its record is read with the first. *)
+Theorem C04_lost_descriptor_coincident_refuted :
+  List.length lost_bodies = 5%nat /\
+  fst (run_bodies the_cfg lost_hash 12 [] lost_bodies (fun _ => ([], CleanEOF))) = [RItem (IRec rL1); RItem (IRec rL2)] /\
+  fst (run_bodies the_cfg lost_hash 12 [] (firstn 3 lost_bodies ++ skipn 4 lost_bodies) (fun _ => ([], CleanEOF)))
+    = [RItem (IRec rL1); RItem (IRec rL2_misread)].
+Proof. exact lost_descriptor_coincident_witness. Qed.
+
+(* non-vacuity of the partial theorem: a first definition of a name is fresh in the empty registry *)
+Example C04_fresh_satisfiable : fresh lost_hash [] dL1.
+Proof. split; reflexivity. Qed.
